@@ -50,7 +50,7 @@ pub fn all() -> Vec<Prop> {
         Prop { id: "C16", run: c16::run, replay: c16::replay, rule: c16::RULE, assumptions: &["reference decoders in harness/src/engine/filters.rs follow ISO 32000-1 7.4 (LZW cross-checked against weezl with code size 8 in unit tests)", "flate2/miniz_oxide is a correct zlib implementation"] },
         Prop { id: "C17", run: c17::run, replay: c17::replay, rule: c17::RULE, assumptions: &["corpus files are copies of /repo/files kept under /verif/corpus/files"] },
         Prop { id: "C18", run: c18::run, replay: c18::replay, rule: c18::RULE, assumptions: &["'treated as absent' is judged against the same instance with a literal null (ISO 32000-1 7.3.10: a reference to an undefined object is a reference to null) and, for entries, with the entry removed", "a reference that the model merely carries (Ref<T>, Lazy<T>, Primitive fields) is not dereferenced by reading and is accepted as is", "array elements whose element type cannot be null (the null variant fails too) are not asserted"] },
-        Prop { id: "C19", run: c19::run, replay: c19::replay, rule: c19::RULE, assumptions: &["simple fonts are generated without /MissingWidth, so the width outside the table is 0", "fonts are read through get::<Font> from a file written by the harness"] },
+        Prop { id: "C19", run: c19::run, replay: c19::replay, rule: c19::RULE, assumptions: &["fonts are read through get::<Font> from a file written by the harness"] },
         Prop { id: "C20", run: c20::run, replay: c20::replay, rule: c20::RULE, assumptions: &["resource content is compared with references followed, /Parent and /P excluded, revisits replaced by a marker", "imports the library refuses (Err) are outside the property and only counted"] },
     ]
 }
